@@ -7,6 +7,7 @@ import (
 	"go/types"
 	"math"
 	"math/big"
+	"sort"
 	"strings"
 
 	"golang.org/x/tools/go/ssa"
@@ -53,13 +54,101 @@ type Analysis struct {
 	lemmaUsed []string
 	bodyHooks map[*ssa.If][]func(*state)
 	hooked    map[*ssa.Phi]bool
+	// OnLoopEntry is called with the state in which a loop is entered (header phis assigned from outside).
+	OnLoopEntry func(fn *ssa.Function, l *cfgutil.Loop, entry *state)
+	ptrAlias    map[*ssa.Parameter]string // pointer parameter of an inlined callee -> path of the argument
+	outs        []outcome
 }
 
 type state struct {
-	d     *dbm
-	terms map[ssa.Value]term // int-valued SSA values
-	slen  map[ssa.Value]term // length of slice values
-	conds map[ssa.Value]cmp  // bool-valued comparisons
+	d       *dbm
+	terms   map[ssa.Value]term // int-valued SSA values
+	slen    map[ssa.Value]term // length of slice values
+	conds   map[ssa.Value]cmp  // bool-valued comparisons
+	lin     map[int]LinForm    // variable -> exact linear form over the input symbols (when known)
+	flags   map[string]bool    // bool fields of the receiver tested on the way here
+	ghost   int                // number of preserved ("ghost") variables on this path
+	emitted []LinForm          // exactness mode: forms of the indexes stored outside loops, in order
+}
+
+// LinForm is an exact linear form over input symbols: "L" (the length) and "field:<path>".
+type LinForm struct {
+	Coef  map[string]int64
+	Const int64
+}
+
+func (f LinForm) clone() LinForm {
+	n := LinForm{Coef: map[string]int64{}, Const: f.Const}
+	for k, v := range f.Coef {
+		n.Coef[k] = v
+	}
+	return n
+}
+
+func (f LinForm) add(g LinForm, sign int64) LinForm {
+	n := f.clone()
+	for k, v := range g.Coef {
+		n.Coef[k] += sign * v
+		if n.Coef[k] == 0 {
+			delete(n.Coef, k)
+		}
+	}
+	n.Const += sign * g.Const
+	return n
+}
+
+// SameVars reports whether f and g have the same coefficients (constants may differ).
+func (f LinForm) SameVars(g LinForm) bool {
+	if len(f.Coef) != len(g.Coef) {
+		return false
+	}
+	for k, v := range f.Coef {
+		if g.Coef[k] != v {
+			return false
+		}
+	}
+	return true
+}
+
+func (f LinForm) String() string {
+	var ks []string
+	for k := range f.Coef {
+		ks = append(ks, k)
+	}
+	sort.Strings(ks)
+	out := ""
+	for _, k := range ks {
+		c := f.Coef[k]
+		switch {
+		case c == 1:
+			out += "+" + k
+		case c == -1:
+			out += "-" + k
+		default:
+			out += fmt.Sprintf("%+d*%s", c, k)
+		}
+	}
+	if f.Const != 0 || out == "" {
+		out += fmt.Sprintf("%+d", f.Const)
+	}
+	return strings.TrimPrefix(out, "+")
+}
+
+// linOf returns the linear form of a term in state s.
+func (a *Analysis) linOf(s *state, t term) (LinForm, bool) {
+	if !t.ok {
+		return LinForm{}, false
+	}
+	if t.v == 0 {
+		return LinForm{Coef: map[string]int64{}, Const: t.off}, true
+	}
+	l, ok := s.lin[t.v]
+	if !ok {
+		return LinForm{}, false
+	}
+	n := l.clone()
+	n.Const += t.off
+	return n, true
 }
 
 type cmp struct {
@@ -68,7 +157,13 @@ type cmp struct {
 }
 
 func (s *state) clone() *state {
-	n := &state{d: s.d.clone(), terms: map[ssa.Value]term{}, slen: map[ssa.Value]term{}, conds: map[ssa.Value]cmp{}}
+	n := &state{d: s.d.clone(), terms: map[ssa.Value]term{}, slen: map[ssa.Value]term{}, conds: map[ssa.Value]cmp{}, lin: map[int]LinForm{}, flags: map[string]bool{}, ghost: s.ghost, emitted: append([]LinForm(nil), s.emitted...)}
+	for k, v := range s.lin {
+		n.lin[k] = v
+	}
+	for k, v := range s.flags {
+		n.flags[k] = v
+	}
 	for k, v := range s.terms {
 		n.terms[k] = v
 	}
@@ -259,8 +354,47 @@ func (a *Analysis) bind(s *state, v ssa.Value, t term) {
 		return
 	}
 	id := a.varFor(v)
+	a.preserve(s, id)
 	s.d.forget(id)
+	delete(s.lin, id)
 	s.terms[v] = term{id, 0, true}
+}
+
+// preserve keeps what is known about variable id under a fresh "ghost" variable before id is
+// re-used for another value (the SSA values of an inlined helper are re-used by its next
+// invocation). Only done for sum forms in exactness mode, where the bounds of e.g. value+len
+// established by the first invocation are needed after the second one.
+func (a *Analysis) preserve(s *state, id int) {
+	if a.OnLoopEntry == nil {
+		return
+	}
+	l, ok := s.lin[id]
+	if !ok || len(l.Coef) < 2 {
+		return
+	}
+	for j, lj := range s.lin {
+		if j != id && lj.SameVars(l) {
+			return
+		}
+	}
+	g := a.varFor(fmt.Sprintf("ghost:%d", s.ghost))
+	s.ghost++
+	if g == 0 || g == id {
+		return
+	}
+	s.d.forget(g)
+	for k := 0; k < s.d.n; k++ {
+		if k == g || k == id {
+			continue
+		}
+		if b := s.d.m[id][k]; b != inf {
+			s.d.m[g][k] = b
+		}
+		if b := s.d.m[k][id]; b != inf {
+			s.d.m[k][g] = b
+		}
+	}
+	s.lin[g] = l
 }
 
 // copyInto gives SSA value v its own variable equal to term t (all relations of t are kept).
@@ -278,6 +412,7 @@ func (a *Analysis) copyInto(s *state, v ssa.Value, t term) {
 		s.terms[v] = t
 		return
 	}
+	a.preserve(s, id)
 	s.d.forget(id)
 	for k := 0; k < s.d.n; k++ {
 		if k == id {
@@ -293,13 +428,20 @@ func (a *Analysis) copyInto(s *state, v ssa.Value, t term) {
 	s.d.m[id][t.v] = t.off
 	s.d.m[t.v][id] = -t.off
 	s.d.close()
+	if l, ok := a.linOf(s, t); ok {
+		s.lin[id] = l
+	} else {
+		delete(s.lin, id)
+	}
 	s.terms[v] = term{id, 0, true}
 }
 
 // fresh assigns v a new variable with the given interval and optional relational bounds.
 func (a *Analysis) fresh(s *state, v ssa.Value, x iv) term {
 	id := a.varFor(v)
+	a.preserve(s, id)
 	s.d.forget(id)
+	delete(s.lin, id)
 	if h := i64hi(x.hi); h != inf {
 		s.d.constrain(id, 0, h)
 	}
@@ -381,22 +523,58 @@ func (a *Analysis) refine(s *state, c cmp, truth bool) bool {
 }
 
 // fieldPath renders a load address as receiver-relative path, e.g. "recv.f3.f1".
-func fieldPath(v ssa.Value, depth int) (string, bool) {
+func (a *Analysis) fieldPathOf(v ssa.Value, depth int) (string, bool) {
 	if depth > 6 {
 		return "", false
 	}
 	switch x := v.(type) {
 	case *ssa.Parameter:
+		if al, ok := a.ptrAlias[x]; ok {
+			return al, true
+		}
+		if x == a.Entry.Params[0] {
+			return "recv", true
+		}
 		return "recv:" + x.Name(), true
 	case *ssa.FieldAddr:
-		base, ok := fieldPath(x.X, depth+1)
+		base, ok := a.fieldPathOf(x.X, depth+1)
 		return fmt.Sprintf("%s.f%d", base, x.Field), ok
 	case *ssa.UnOp:
 		if x.Op == token.MUL {
-			return fieldPath(x.X, depth+1)
+			return a.fieldPathOf(x.X, depth+1)
 		}
 	}
 	return "", false
+}
+
+// boolFieldCond: cond is a load of a bool field of the receiver (possibly negated); returns its path.
+func (a *Analysis) boolFieldCond(cond ssa.Value) (string, bool) {
+	neg := false
+	for {
+		u, ok := cond.(*ssa.UnOp)
+		if !ok {
+			return "", false
+		}
+		if u.Op == token.NOT {
+			neg = !neg
+			cond = u.X
+			continue
+		}
+		if u.Op != token.MUL {
+			return "", false
+		}
+		if b, isB := u.Type().Underlying().(*types.Basic); !isB || b.Kind() != types.Bool {
+			return "", false
+		}
+		if _, isFA := u.X.(*ssa.FieldAddr); !isFA {
+			return "", false
+		}
+		path, ok := a.fieldPathOf(u.X, 0)
+		if !ok {
+			return "", false
+		}
+		return path, neg
+	}
 }
 
 // Run analyses the entry function for all inputs.
@@ -406,14 +584,16 @@ func (a *Analysis) Run() {
 		a.problem("entry %s is not a method with one int parameter", load.FuncName(fn))
 		return
 	}
-	st := &state{d: newDBM(maxVars), terms: map[ssa.Value]term{}, slen: map[ssa.Value]term{}, conds: map[ssa.Value]cmp{}}
+	st := &state{d: newDBM(maxVars), terms: map[ssa.Value]term{}, slen: map[ssa.Value]term{}, conds: map[ssa.Value]cmp{}, lin: map[int]LinForm{}, flags: map[string]bool{}}
 	a.lenVar = a.varFor(fn.Params[1])
+	st.lin[a.lenVar] = LinForm{Coef: map[string]int64{"L": 1}}
 	st.d.constrain(a.lenVar, 0, a.maxLen)
 	st.d.constrain(0, a.lenVar, 0)
 	st.terms[fn.Params[1]] = term{a.lenVar, 0, true}
 	a.check = true
 	outs := a.execFunc(fn, st)
 	a.Paths = len(outs)
+	a.outs = outs
 }
 
 func (a *Analysis) execFunc(fn *ssa.Function, st *state) []outcome {
@@ -538,7 +718,18 @@ func (a *Analysis) applyPhis(s *state, b, pred *ssa.BasicBlock) {
 		}
 	}
 	s.d.close()
+	newLin := map[int]LinForm{}
 	for _, p := range ps {
+		if l, ok := a.linOf(s, p.src); ok {
+			newLin[p.id] = l
+		}
+	}
+	for _, p := range ps {
+		if l, ok := newLin[p.id]; ok {
+			s.lin[p.id] = l
+		} else {
+			delete(s.lin, p.id)
+		}
 		s.terms[p.phi] = term{p.id, 0, true}
 	}
 }
@@ -577,6 +768,16 @@ func (a *Analysis) execFrom(fn *ssa.Function, loops []*cfgutil.Loop, b *ssa.Basi
 				// inline
 				cst := st.clone()
 				for k, prm := range sc.Params {
+					if k < len(x.Call.Args) {
+						if _, isPtr := prm.Type().Underlying().(*types.Pointer); isPtr {
+							if path, ok := a.fieldPathOf(x.Call.Args[k], 0); ok {
+								if a.ptrAlias == nil {
+									a.ptrAlias = map[*ssa.Parameter]string{}
+								}
+								a.ptrAlias[prm] = path
+							}
+						}
+					}
 					if k < len(x.Call.Args) && isInt(prm.Type()) {
 						t := a.termOf(cst, x.Call.Args[k])
 						if !t.ok {
@@ -602,8 +803,16 @@ func (a *Analysis) execFrom(fn *ssa.Function, loops []*cfgutil.Loop, b *ssa.Basi
 		case *ssa.If:
 			var outs []outcome
 			c, known := st.conds[x.Cond]
+			flagPath, flagNeg := a.boolFieldCond(x.Cond)
 			for k, succ := range b.Succs {
 				ns := st.clone()
+				if flagPath != "" {
+					val := (k == 0) != flagNeg
+					if old, has := ns.flags[flagPath]; has && old != val {
+						continue // the same flag was tested the other way before
+					}
+					ns.flags[flagPath] = val
+				}
 				if known && !a.refine(ns, c, k == 0) {
 					if a.Debug {
 						fmt.Printf("intarith: infeasible edge %s block %d -> %d (cond %s)\n", fn.Name(), b.Index, succ.Index, x.Cond)
@@ -667,6 +876,17 @@ func (a *Analysis) solveLoop(fn *ssa.Function, loops []*cfgutil.Loop, l *cfgutil
 	if pred != nil {
 		a.applyPhis(entry, l.Header, pred)
 	}
+	if a.OnLoopEntry != nil && a.check {
+		a.OnLoopEntry(fn, l, entry)
+	}
+	// header phis vary from iteration to iteration: their entry forms do not hold in the invariant
+	for _, ins := range l.Header.Instrs {
+		if ph, ok := ins.(*ssa.Phi); ok {
+			if t, has := entry.terms[ph]; has {
+				delete(entry.lin, t.v)
+			}
+		}
+	}
 	inv := entry
 	saveCheck := a.check
 	a.check = false
@@ -677,10 +897,10 @@ func (a *Analysis) solveLoop(fn *ssa.Function, loops []*cfgutil.Loop, l *cfgutil
 		a.execFrom(fn, loops, l.Header, -1, nil, inv.clone(), lc)
 		next := inv
 		for _, b := range lc.back {
-			next = &state{d: joinDBM(next.d, b.d), terms: next.terms, slen: next.slen, conds: next.conds}
+			next = &state{d: joinDBM(next.d, b.d), terms: next.terms, slen: next.slen, conds: next.conds, lin: next.lin, flags: next.flags}
 		}
 		if iter >= 2 {
-			next = &state{d: widenDBM(inv.d, next.d), terms: next.terms, slen: next.slen, conds: next.conds}
+			next = &state{d: widenDBM(inv.d, next.d), terms: next.terms, slen: next.slen, conds: next.conds, lin: next.lin, flags: next.flags}
 		}
 		next.d.close()
 		// the iteration-count lemma does not depend on the fixpoint: it holds at the header in any case
@@ -832,8 +1052,11 @@ func (a *Analysis) transfer(fn *ssa.Function, st *state, ins ssa.Instruction) {
 		switch x.Op {
 		case token.MUL:
 			if isInt(x.Type()) {
-				if path, ok := fieldPath(x.X, 0); ok {
+				if path, ok := a.fieldPathOf(x.X, 0); ok {
 					id := a.varFor("field:" + path)
+					if _, has := st.lin[id]; !has {
+						st.lin[id] = LinForm{Coef: map[string]int64{"field:" + path: 1}}
+					}
 					st.terms[x] = term{id, 0, true}
 					return
 				}
@@ -844,10 +1067,15 @@ func (a *Analysis) transfer(fn *ssa.Function, st *state, ins ssa.Instruction) {
 				t := a.termOf(st, x.X)
 				r := a.interval(st, t).neg()
 				a.ovf(st, x, fn, r, opName(x))
-				if !a.fits(r) {
+				wrapped := !a.fits(r)
+				if wrapped {
 					r = a.full()
 				}
-				a.fresh(st, x, r)
+				lt, okl := a.linOf(st, t)
+				res := a.fresh(st, x, r)
+				if okl && !wrapped {
+					st.lin[res.v] = LinForm{Coef: map[string]int64{}}.add(lt, -1)
+				}
 			}
 		}
 	case *ssa.BinOp:
@@ -887,7 +1115,16 @@ func (a *Analysis) transfer(fn *ssa.Function, st *state, ins ssa.Instruction) {
 				st.terms[x] = term{ty.v, ty.off + tx.off, true}
 				return
 			}
+			lx, okx := a.linOf(st, tx)
+			ly, oky := a.linOf(st, ty)
 			res := a.fresh(st, x, r)
+			if okx && oky {
+				sign := int64(1)
+				if x.Op == token.SUB {
+					sign = -1
+				}
+				st.lin[res.v] = lx.add(ly, sign)
+			}
 			if x.Op == token.ADD {
 				a.relateIv(st, res, tx, iy) // r - x = y
 				a.relateIv(st, res, ty, ix)
@@ -971,6 +1208,13 @@ func (a *Analysis) transfer(fn *ssa.Function, st *state, ins ssa.Instruction) {
 		}
 		// every int stored into an []int of these functions is a produced index: 0 <= v <= len-1
 		tv := a.termOf(st, x.Val)
+		if a.OnLoopEntry != nil && fn == a.Entry && !st.flags["#loop"] {
+			if f, okf := a.linOf(st, tv); okf {
+				st.emitted = append(st.emitted, f)
+			} else {
+				st.emitted = append(st.emitted, LinForm{Coef: map[string]int64{"?": 1}})
+			}
+		}
 		lenT := term{a.lenVar, 0, true}
 		okR := tv.ok && a.leq(st, term{0, 0, true}, tv) && a.lt(st, tv, lenT)
 		a.oblige("I-RANGE", fmt.Sprintf("%s: produced index", load.FuncName(fn)), x.Pos(), okR,
@@ -1207,7 +1451,7 @@ func (a *Analysis) stepTerm(s *state, v ssa.Value) term {
 		return t
 	}
 	if ld, ok := v.(*ssa.UnOp); ok && ld.Op == token.MUL {
-		if path, ok := fieldPath(ld.X, 0); ok {
+		if path, ok := a.fieldPathOf(ld.X, 0); ok {
 			if id, seen := a.vars["field:"+path]; seen {
 				return term{id, 0, true}
 			}
